@@ -22,11 +22,10 @@ func skipGuards(fn *ssa.Function) map[string]bool {
 		return ok && len(ret.Results) == 1 && ex(ret.Results[0]) == "gomavlib.errSkip"
 	}
 	for _, iff := range ifsIn(fn) {
-		if onlySkip(iff.Block().Succs[0]) {
-			out[ex(iff.Cond)] = true
-		}
-		if onlySkip(iff.Block().Succs[1]) {
-			out["!"+ex(iff.Cond)] = true
+		for v, idx := range condVariants(iff.Cond) {
+			if onlySkip(iff.Block().Succs[idx]) {
+				out[v] = true
+			}
 		}
 	}
 	return out
@@ -139,7 +138,7 @@ func runC16(c *Ctx) {
 		for _, st := range storesTo(ini, func(a string) bool { return a == "&recv."+mod }) {
 			if isNilConst(st.Val) {
 				for _, iff := range ifsIn(ini) {
-					if strings.HasPrefix(ex(iff.Cond), "errors.Is((gomavlib."+mod+").initialize(") && edgeMustPass(ini, edge{iff.Block(), iff.Block().Succs[0]}, st.Block()) {
+					if tb, _, _, hit := succWhenFunc(iff, func(cs string) bool { return strings.HasPrefix(cs, "errors.Is((gomavlib."+mod+").initialize(") }); hit && edgeMustPass(ini, edge{iff.Block(), tb}, st.Block()) {
 						okNil = true
 					}
 				}
@@ -225,7 +224,7 @@ func runC16(c *Ctx) {
 		for _, st := range storesTo(ini, func(a string) bool { return a == addr }) {
 			if ex(st.Val) == w {
 				for _, iff := range ifsIn(ini) {
-					if ex(iff.Cond) == "("+strings.TrimPrefix(addr, "&")+" == 0)" && iff.Block().Succs[0] == st.Block() {
+					if tb, _, hit := succWhen(iff, "("+strings.TrimPrefix(addr, "&")+" == 0)"); hit && tb == st.Block() {
 						ok = true
 					}
 				}
@@ -239,9 +238,11 @@ func runC16(c *Ctx) {
 		"a request is made iff the key is absent or now − last ≥ streamRequestPeriod (30 s), and the table is updated on exactly those paths, under the mutex", 3)
 	early := map[string]bool{}
 	for _, iff := range ifsIn(oef) {
-		tb := iff.Block().Succs[0]
-		if ret, ok := tb.Instrs[len(tb.Instrs)-1].(*ssa.Return); ok && len(ret.Results) == 0 && len(tb.Instrs) == 1 {
-			early[ex(iff.Cond)] = true
+		for v, idx := range condVariants(iff.Cond) {
+			tb := iff.Block().Succs[idx]
+			if ret, ok := tb.Instrs[len(tb.Instrs)-1].(*ssa.Return); ok && len(ret.Results) == 0 && len(tb.Instrs) == 1 {
+				early[v] = true
+			}
 		}
 	}
 	okID := early["((message.Message).GetID((gomavlib.EventFrame).Message(arg0)) != 0)"]
